@@ -1,11 +1,649 @@
-// Package c14 - correspondence harness for C14 (stub: not built yet).
+// Package c14 - correspondence harness for C14 "a CRL cache entry is only ever absent or complete".
+//
+// Every case is a *trace*: the file-system steps of concurrent FileCache.Set calls in the order
+// the harness made them happen (writers are parked at the verif hooks of file.WriteFile:
+// created / written / closed / returned), `crash` = SIGKILL of a child-process writer, `get` =
+// a FileCache.Get executed at that point, `probe` = directory listing + Get of every URL.
+// The Lean driver replays the trace through the model and compares every observation.
 package c14
 
 import (
-	"errors"
+	"bufio"
+	"context"
+	"fmt"
+	"os"
+	"sort"
+	"strings"
+	"sync"
+	"time"
 
+	"crypto/x509"
+
+	corecrl "github.com/notaryproject/notation-core-go/revocation/crl"
+	"github.com/notaryproject/notation-go/internal/file"
 	"github.com/notaryproject/notation-go/xverif/common"
 )
 
+var wsteps = []string{"create", "write", "close", "rename"}
+
+// interleavings enumerates all sequences over writer indices in which writer i occurs counts[i] times.
+func interleavings(counts []int, visit func([]int)) {
+	total := 0
+	for _, n := range counts {
+		total += n
+	}
+	left := append([]int{}, counts...)
+	cur := make([]int, 0, total)
+	var rec func()
+	rec = func() {
+		if len(cur) == total {
+			visit(cur)
+			return
+		}
+		for i := range left {
+			if left[i] > 0 {
+				left[i]--
+				cur = append(cur, i)
+				rec()
+				cur = cur[:len(cur)-1]
+				left[i]++
+			}
+		}
+	}
+	rec()
+}
+
+// trace builds the event list: scripts[i] = the events of writer i in order, `order` interleaves
+// them, gets[p] = keys read just before the p-th writer event (p = len(order): at the end);
+// a probe follows every writer event.
+func trace(w *world, scripts [][]string, order []int, gets map[int][]int) []Ev {
+	var evs []Ev
+	pos := make([]int, len(scripts))
+	for p := 0; p <= len(order); p++ {
+		for _, k := range gets[p] {
+			evs = append(evs, Ev{Kind: "get", A: k})
+		}
+		if p == len(order) {
+			break
+		}
+		i := order[p]
+		kind := scripts[i][pos[i]]
+		pos[i]++
+		e := Ev{Kind: kind, A: i}
+		if kind == "write" {
+			e.B = w.bundles[i].absLen + 1
+		}
+		evs = append(evs, e, Ev{Kind: "probe"})
+	}
+	return evs
+}
+
+type runner struct {
+	c    *common.Ctx
+	pool *pool
+}
+
+// one executes a trace in a fresh cache directory and emits the case.
+func (r *runner) one(label string, nkeys int, plans []wplan, mk func(w *world) []Ev) error {
+	w, err := newWorld(r.c, r.pool, nkeys, plans)
+	if err != nil {
+		return err
+	}
+	defer w.cleanup()
+	evs := mk(w)
+	obs, dev, err := runSchedule(w, evs)
+	if err != nil {
+		return fmt.Errorf("%s: %w (trace %v)", label, err, evs)
+	}
+	r.c.Emit(Input{Free: false, Writers: w.specs(), Nkeys: nkeys, Events: evs}, obs)
+	r.c.Count("experiment=" + label)
+	if dev > 0 {
+		r.c.Count("hook-deviations")
+	}
+	for _, g := range obs.Gets {
+		r.c.Count("get=" + g.Kind)
+	}
+	return nil
+}
+
+func full(n int) [][]string {
+	s := make([][]string, n)
+	for i := range s {
+		s[i] = wsteps
+	}
+	return s
+}
+
+func counts(scripts [][]string) []int {
+	out := make([]int, len(scripts))
+	for i, s := range scripts {
+		out[i] = len(s)
+	}
+	return out
+}
+
+func copyInts(a []int) []int { return append([]int{}, a...) }
+
 // Run generates the cases of C14.
-func Run(c *common.Ctx) error { return errors.New("C14: harness not built yet") }
+func Run(c *common.Ctx) error {
+	installHook()
+	defer func() { file.VerifHook = nil }()
+	ca := common.MakeCert(common.CertOpts{Subject: common.Name("C14 CRL issuer"), CA: true, PathLen: -1,
+		KeyUsage: x509.KeyUsageCertSign | x509.KeyUsageCRLSign})
+	pl := &pool{}
+	var err0 error
+	for i := 0; i < 6; i++ {
+		b, err := makeBundle(ca, int64(i+1), 2+i, c.WorkDir, smallLen)
+		if err != nil {
+			return err
+		}
+		pl.small = append(pl.small, b)
+	}
+	for i := 0; i < 6; i++ {
+		b, err := makeBundle(ca, int64(100+i), 36000+500*i, c.WorkDir, largeLen)
+		if err != nil {
+			return err
+		}
+		pl.large = append(pl.large, b)
+	}
+	if pl.huge, err0 = makeBundle(ca, 500, 130000, c.WorkDir, largeLen); err0 != nil {
+		return err0
+	}
+	c.Note("bundles: real CRLs (x509.CreateRevocationList), distinct Number per Set call; small ~%d B and large ~%d B cache files (kill-during-write: ~%d B).",
+		pl.small[0].fileSize, pl.large[0].fileSize, pl.huge.fileSize)
+	r := &runner{c: c, pool: pl}
+	g := func(key int) wplan { return wplan{key: key} }
+
+	// (a1) two goroutine writers, same URL: all 70 interleavings x one Get at each of the 9
+	// positions and two Gets at each of the 45 position pairs - exhaustive.
+	var err error
+	interleavings([]int{4, 4}, func(order []int) {
+		if err != nil {
+			return
+		}
+		o := copyInts(order)
+		for p1 := 0; p1 <= 8 && err == nil; p1++ {
+			err = r.one("stepped-2w-sameurl-1get", 1, []wplan{g(0), g(0)}, func(w *world) []Ev {
+				return trace(w, full(2), o, map[int][]int{p1: {0}})
+			})
+			for p2 := p1; p2 <= 8 && err == nil; p2++ {
+				gets := map[int][]int{p1: {0}}
+				gets[p2] = append(gets[p2], 0)
+				err = r.one("stepped-2w-sameurl-2gets", 1, []wplan{g(0), g(0)}, func(w *world) []Ev {
+					return trace(w, full(2), o, gets)
+				})
+			}
+		}
+	})
+	if err != nil {
+		return err
+	}
+	// (a2) two writers, different URLs: all 70 interleavings, a Get of each URL at a random position
+	interleavings([]int{4, 4}, func(order []int) {
+		if err != nil {
+			return
+		}
+		o := copyInts(order)
+		gets := map[int][]int{c.Rand.Intn(9): {0}}
+		p := c.Rand.Intn(9)
+		gets[p] = append(gets[p], 1)
+		err = r.one("stepped-2w-twourls", 2, []wplan{g(0), g(1)}, func(w *world) []Ev {
+			return trace(w, full(2), o, gets)
+		})
+	})
+	if err != nil {
+		return err
+	}
+	// (a3) three writers: an existing entry (writer 0 completes first) under all 70 interleavings
+	// of two more writers; all 34650 interleavings of three in thorough, a sample in quick.
+	interleavings([]int{4, 4}, func(order []int) {
+		if err != nil {
+			return
+		}
+		o := []int{0, 0, 0, 0}
+		for _, x := range order {
+			o = append(o, x+1)
+		}
+		err = r.one("stepped-existing-entry-then-2w", 1, []wplan{g(0), g(0), g(0)}, func(w *world) []Ev {
+			return trace(w, full(3), o, map[int][]int{c.Rand.Intn(13): {0}})
+		})
+	})
+	if err != nil {
+		return err
+	}
+	var all3 [][]int
+	interleavings([]int{4, 4, 4}, func(order []int) { all3 = append(all3, copyInts(order)) })
+	n3 := 200
+	if c.Thorough() {
+		n3 = len(all3)
+	}
+	for i := 0; i < n3 && err == nil; i++ {
+		o := all3[i]
+		if !c.Thorough() {
+			o = all3[c.Rand.Intn(len(all3))]
+		}
+		keys := []int{0, 0, 0}
+		nkeys := 1
+		if i%3 == 1 {
+			keys, nkeys = []int{c.Rand.Intn(2), c.Rand.Intn(2), c.Rand.Intn(2)}, 2
+		}
+		gets := map[int][]int{c.Rand.Intn(13): {c.Rand.Intn(nkeys)}}
+		p := c.Rand.Intn(13)
+		gets[p] = append(gets[p], c.Rand.Intn(nkeys))
+		err = r.one("stepped-3w", nkeys, []wplan{g(keys[0]), g(keys[1]), g(keys[2])}, func(w *world) []Ev {
+			return trace(w, full(3), o, gets)
+		})
+	}
+	if err != nil {
+		return err
+	}
+	// (a4) large (~1 MiB) bundles under stepped schedules
+	var all2 [][]int
+	interleavings([]int{4, 4}, func(order []int) { all2 = append(all2, copyInts(order)) })
+	nl := 12
+	if c.Thorough() {
+		nl = len(all2)
+	}
+	for i := 0; i < nl && err == nil; i++ {
+		o := all2[i]
+		if !c.Thorough() {
+			o = all2[c.Rand.Intn(len(all2))]
+		}
+		plans := []wplan{{key: 0, large: true}, {key: 0, large: i%2 == 0}}
+		err = r.one("stepped-2w-large", 1, plans, func(w *world) []Ev {
+			return trace(w, full(2), o, map[int][]int{c.Rand.Intn(9): {0}})
+		})
+	}
+	if err != nil {
+		return err
+	}
+
+	// (b1) a goroutine writer and a child-process writer on the same URL; the child is killed
+	// (SIGKILL) while parked after its j-th step, j = 1..4: all interleavings (15+35+70+126).
+	// Variant: with an entry already stored by a third Set call.
+	nCrashSample := 40
+	for j := 1; j <= 4 && err == nil; j++ {
+		script := append(append([]string{}, wsteps[:j]...), "crash")
+		scripts := [][]string{wsteps, script}
+		var orders [][]int
+		interleavings(counts(scripts), func(order []int) { orders = append(orders, copyInts(order)) })
+		for _, o := range orders {
+			if err != nil {
+				break
+			}
+			o := o
+			err = r.one(fmt.Sprintf("crash-child-after-%s-vs-goroutine", hookAfter[wsteps[j-1]]), 1,
+				[]wplan{g(0), {key: 0, child: true}}, func(w *world) []Ev {
+					return trace(w, scripts, o, map[int][]int{len(o): {0}})
+				})
+		}
+		// with an existing entry / a second URL / a large child bundle
+		n := nCrashSample / 4
+		if c.Thorough() {
+			n = len(orders)
+		}
+		for i := 0; i < n && err == nil; i++ {
+			o := orders[i]
+			if !c.Thorough() {
+				o = orders[c.Rand.Intn(len(orders))]
+			}
+			oo := []int{0, 0, 0, 0}
+			for _, x := range o {
+				oo = append(oo, x+1)
+			}
+			k2 := i % 2 // the goroutine writer writes the same or the other URL
+			plans := []wplan{g(0), g(k2), {key: 0, child: true, large: i%3 == 0}}
+			sc := [][]string{wsteps, wsteps, script}
+			err = r.one(fmt.Sprintf("crash-child-after-%s-existing-entry", hookAfter[wsteps[j-1]]), 2, plans, func(w *world) []Ev {
+				return trace(w, sc, oo, map[int][]int{len(oo): {0, 1}})
+			})
+		}
+	}
+	if err != nil {
+		return err
+	}
+	// (b2) two child processes on the same URL, both killed at sampled points
+	n2c := 12
+	if c.Thorough() {
+		n2c = 150
+	}
+	for i := 0; i < n2c && err == nil; i++ {
+		j1, j2 := 1+c.Rand.Intn(4), 1+c.Rand.Intn(4)
+		scripts := [][]string{append(append([]string{}, wsteps[:j1]...), "crash"), append(append([]string{}, wsteps[:j2]...), "crash")}
+		var orders [][]int
+		interleavings(counts(scripts), func(order []int) { orders = append(orders, copyInts(order)) })
+		o := orders[c.Rand.Intn(len(orders))]
+		err = r.one("crash-two-children", 1, []wplan{{key: 0, child: true}, {key: 0, child: true, large: i%4 == 0}}, func(w *world) []Ev {
+			return trace(w, scripts, o, map[int][]int{len(o): {0}})
+		})
+	}
+	if err != nil {
+		return err
+	}
+	// (b3) free-running child that kills itself at a hook; (b4) child killed by the parent right
+	// after "created", i.e. while the large content is being written
+	if err = r.selfKills(); err != nil {
+		return err
+	}
+	if err = r.midWrite(); err != nil {
+		return err
+	}
+	// (c) free-running goroutines and processes - supporting evidence
+	if err = r.freeRun(false); err != nil {
+		return err
+	}
+	if err = r.freeRun(true); err != nil {
+		return err
+	}
+	c.SetExhaustive(false)
+	c.Note("stepped: all 70 interleavings of 2 Set calls (4 file-system steps each) on one URL x a Get at each of 9 positions and at each of 45 position pairs (exhaustive), 70 interleavings on two URLs, existing entry + 70, %d interleavings of 3 Set calls (of 34650; thorough = all), %d with ~1 MiB bundles; a probe (directory listing + Get of every URL) follows every step.", n3, nl)
+	c.Note("crash: child-process writer SIGKILLed after each of its 4 steps under all 246 interleavings with a goroutine writer, sampled variants with an existing entry / second URL / large bundle / two children; self-kill at each hook; parent kill during the write of a large bundle (trace reconstructed post mortem from the temp file size).")
+	c.Note("free-running goroutines and processes: supporting evidence only (the model cannot predict which allowed result a free Get sees; 'agree' there means every result is one the model allows).")
+	return nil
+}
+
+// selfKills: a child running Set freely SIGKILLs itself at a hook (no stepping pipes involved).
+func (r *runner) selfKills() error {
+	for _, pre := range []bool{false, true} {
+		for _, large := range []bool{false, true} {
+			for j := 1; j <= 4; j++ {
+				plans := []wplan{{key: 0}, {key: 0, child: true, large: large}}
+				w, err := newWorld(r.c, r.pool, 1, plans)
+				if err != nil {
+					return err
+				}
+				var evs []Ev
+				obs := Obs{Gets: []ReadObs{}, Probes: []DirObs{}, Seen: []SeenObs{}}
+				if pre {
+					evs = trace(w, [][]string{wsteps, {}}, []int{0, 0, 0, 0}, nil)
+					var dev int
+					obs, dev, err = runSchedule(w, evs)
+					if err != nil || dev > 0 {
+						w.cleanup()
+						return fmt.Errorf("selfkill pre-entry: %v dev=%d", err, dev)
+					}
+				}
+				cmd := childCmd("selfkill", w.root, w.urls[0], w.bundles[1].path, envStep+"="+hookAfter[wsteps[j-1]])
+				cmd.Run() // ends by SIGKILL
+				if cmd.ProcessState == nil || cmd.ProcessState.Success() {
+					r.c.Count("selfkill-child-was-not-killed")
+				}
+				for _, k := range wsteps[:j] {
+					e := Ev{Kind: k, A: 1}
+					if k == "write" {
+						e.B = w.bundles[1].absLen + 1
+					}
+					evs = append(evs, e)
+				}
+				evs = append(evs, Ev{Kind: "crash", A: 1}, Ev{Kind: "get", A: 0}, Ev{Kind: "probe"})
+				obs.Gets = append(obs.Gets, w.get(0))
+				d, err := w.probe()
+				if err != nil {
+					w.cleanup()
+					return err
+				}
+				obs.Probes = append(obs.Probes, d)
+				r.c.Emit(Input{Writers: w.specs(), Nkeys: 1, Events: evs}, obs)
+				r.c.Count("experiment=selfkill-at-" + hookAfter[wsteps[j-1]])
+				w.cleanup()
+			}
+		}
+	}
+	return nil
+}
+
+// midWrite: the child announces "created" (or "closed") and keeps going; the parent SIGKILLs it at once.
+// Where the kill landed is read off the directory afterwards (temp file size / renamed).
+func (r *runner) midWrite() error {
+	tries := 16
+	if r.c.Thorough() {
+		tries = 80
+	}
+	for i := 0; i < tries; i++ {
+		pre := i%2 == 1
+		plans := []wplan{{key: 0}, {key: 0, child: true, large: true}}
+		w, err := newWorld(r.c, r.pool, 1, plans)
+		if err != nil {
+			return err
+		}
+		w.bundles[1] = r.pool.huge
+		var evs []Ev
+		obs := Obs{Gets: []ReadObs{}, Probes: []DirObs{}, Seen: []SeenObs{}}
+		if pre {
+			evs = trace(w, [][]string{wsteps, {}}, []int{0, 0, 0, 0}, nil)
+			var dev int
+			obs, dev, err = runSchedule(w, evs)
+			if err != nil || dev > 0 {
+				w.cleanup()
+				return fmt.Errorf("midwrite pre-entry: %v dev=%d", err, dev)
+			}
+		}
+		announce := "created" // kill lands in the write of the content
+		if i%4 >= 2 {
+			announce = "closed" // kill lands in / around the rename
+		}
+		cmd := childCmd("signal", w.root, w.urls[0], w.bundles[1].path, envStep+"="+announce)
+		out, err := cmd.StdoutPipe()
+		if err != nil {
+			return err
+		}
+		if err := cmd.Start(); err != nil {
+			return err
+		}
+		line, _ := bufio.NewReader(out).ReadString('\n')
+		if i%8 == 7 {
+			time.Sleep(time.Duration(r.c.Rand.Intn(300)) * time.Microsecond)
+		}
+		cmd.Process.Kill()
+		cmd.Wait()
+		if strings.TrimSpace(line) != announce {
+			r.c.Count("midwrite=child-never-created")
+		}
+		// post mortem
+		b := w.bundles[1]
+		ents, _ := os.ReadDir(w.root)
+		var tempSize int64 = -1
+		for _, e := range ents {
+			if strings.HasPrefix(e.Name(), "notation-") {
+				if st, err := e.Info(); err == nil {
+					tempSize = st.Size()
+				}
+			}
+		}
+		evs = append(evs, Ev{Kind: "create", A: 1})
+		switch {
+		case tempSize >= 0 && tempSize < b.fileSize:
+			n := int(tempSize * int64(b.absLen+1) / b.fileSize)
+			if n > b.absLen {
+				n = b.absLen
+			}
+			evs = append(evs, Ev{Kind: "write", A: 1, B: n})
+			if tempSize == 0 {
+				r.c.Count("midwrite=killed-before-first-byte")
+			} else {
+				r.c.Count("midwrite=killed-with-partial-temp-file")
+			}
+		case tempSize == b.fileSize:
+			evs = append(evs, Ev{Kind: "write", A: 1, B: b.absLen + 1})
+			r.c.Count("midwrite=killed-after-write-before-rename (announce=" + announce + ")")
+		default: // no temp file left: the rename happened
+			evs = append(evs, Ev{Kind: "write", A: 1, B: b.absLen + 1}, Ev{Kind: "close", A: 1}, Ev{Kind: "rename", A: 1})
+			r.c.Count("midwrite=killed-after-rename (announce=" + announce + ")")
+		}
+		evs = append(evs, Ev{Kind: "crash", A: 1}, Ev{Kind: "get", A: 0}, Ev{Kind: "probe"})
+		obs.Gets = append(obs.Gets, w.get(0))
+		d, err := w.probe()
+		if err != nil {
+			w.cleanup()
+			return err
+		}
+		obs.Probes = append(obs.Probes, d)
+		r.c.Emit(Input{Writers: w.specs(), Nkeys: 1, Events: evs}, obs)
+		r.c.Count("experiment=kill-during-write")
+		w.cleanup()
+	}
+	return nil
+}
+
+// freeRun: goroutines and child processes call Set in a loop on 2 URLs while readers call Get in
+// a loop; one extra child is repeatedly SIGKILLed at random moments. Every Get result is
+// classified; the case lists the distinct results seen.
+func (r *runner) freeRun(withLarge bool) error {
+	file.VerifHook = nil
+	defer installHook()
+	dur := 1000 * time.Millisecond
+	if r.c.Thorough() {
+		dur = 7500 * time.Millisecond
+	}
+	// writers 0..2 goroutines, 3..5 children, 6 the victim child
+	plans := []wplan{{key: 0}, {key: 1}, {key: 0, large: withLarge}, {key: 0, child: true}, {key: 1, child: true, large: withLarge}, {key: 1, child: true}, {key: 0, child: true, large: withLarge}}
+	w, err := newWorld(r.c, r.pool, 2, plans)
+	if err != nil {
+		return err
+	}
+	defer w.cleanup()
+	var mu sync.Mutex
+	seen := map[SeenObs]int{}
+	record := func(k int, o ReadObs, after bool) {
+		mu.Lock()
+		seen[SeenObs{Key: k, Kind: o.Kind, Writer: o.Writer, AfterSet: after}]++
+		mu.Unlock()
+	}
+	for k := range w.urls {
+		record(k, w.get(k), false) // before any writer: a miss
+	}
+	// one Set per URL returns before anything else starts: from here on a miss is a violation
+	for k := range w.urls {
+		if err := w.cache.Set(context.Background(), w.urls[plans[k].key], &corecrl.Bundle{BaseCRL: w.bundles[k].rl}); err != nil {
+			return err
+		}
+	}
+	stop := make(chan struct{})
+	victimSeed := r.c.Rand.Int63()
+	var wg sync.WaitGroup
+	var sets, kills int64
+	var childErr error
+	for i, p := range plans {
+		i, p := i, p
+		wg.Add(1)
+		switch {
+		case !p.child:
+			go func() {
+				defer wg.Done()
+				n := int64(0)
+				for {
+					select {
+					case <-stop:
+						mu.Lock()
+						sets += n
+						mu.Unlock()
+						return
+					default:
+					}
+					if err := w.cache.Set(context.Background(), w.urls[p.key], &corecrl.Bundle{BaseCRL: w.bundles[i].rl}); err != nil {
+						mu.Lock()
+						childErr = err
+						mu.Unlock()
+						return
+					}
+					n++
+				}
+			}()
+		case i < len(plans)-1:
+			go func() {
+				defer wg.Done()
+				cmd := childCmd("hammer", w.root, w.urls[p.key], w.bundles[i].path, fmt.Sprintf("%s=%d", envDur, dur.Milliseconds()))
+				out, err := cmd.Output()
+				mu.Lock()
+				defer mu.Unlock()
+				if err != nil {
+					childErr = fmt.Errorf("hammer child: %w", err)
+					return
+				}
+				var n int64
+				fmt.Sscan(string(out), &n)
+				sets += n
+			}()
+		default: // the victim: killed at random moments, restarted
+			go func() {
+				defer wg.Done()
+				rnd := victimSeed
+				for {
+					select {
+					case <-stop:
+						return
+					default:
+					}
+					cmd := childCmd("hammer", w.root, w.urls[p.key], w.bundles[i].path, fmt.Sprintf("%s=%d", envDur, dur.Milliseconds()))
+					if err := cmd.Start(); err != nil {
+						return
+					}
+					rnd = rnd*6364136223846793005 + 1442695040888963407
+					time.Sleep(time.Duration(20+uint64(rnd>>33)%60) * time.Millisecond)
+					cmd.Process.Kill()
+					cmd.Wait()
+					mu.Lock()
+					kills++
+					mu.Unlock()
+				}
+			}()
+		}
+	}
+	var gets int64
+	for rd := 0; rd < 4; rd++ {
+		wg.Add(1)
+		go func() {
+			defer wg.Done()
+			n := int64(0)
+			for {
+				select {
+				case <-stop:
+					mu.Lock()
+					gets += n
+					mu.Unlock()
+					return
+				default:
+				}
+				for k := range w.urls {
+					record(k, w.get(k), true)
+					n++
+				}
+			}
+		}()
+	}
+	time.Sleep(dur)
+	close(stop)
+	wg.Wait()
+	if childErr != nil {
+		return childErr
+	}
+	// quiescent: every URL once more, and the leftovers of the killed child are not entries
+	for k := range w.urls {
+		record(k, w.get(k), true)
+	}
+	d, err := w.probe()
+	if err != nil {
+		return err
+	}
+	var list []SeenObs
+	for s := range seen {
+		list = append(list, s)
+	}
+	sort.Slice(list, func(a, b int) bool {
+		if list[a].Key != list[b].Key {
+			return list[a].Key < list[b].Key
+		}
+		if list[a].Kind != list[b].Kind {
+			return list[a].Kind < list[b].Kind
+		}
+		if list[a].AfterSet != list[b].AfterSet {
+			return list[b].AfterSet
+		}
+		return list[a].Writer < list[b].Writer
+	})
+	r.c.Emit(Input{Free: true, Writers: w.specs(), Nkeys: 2, Events: []Ev{}}, Obs{Gets: []ReadObs{}, Probes: []DirObs{}, Seen: list})
+	r.c.Count("experiment=free-running")
+	r.c.Note("free run (large=%v, %v): %d Set calls by 3 goroutines + 3 processes, %d Gets by 4 readers, %d SIGKILLs of a 4th writer process, %d distinct results, %d leftover temp files, %d foreign files.",
+		withLarge, dur, sets, gets, kills, len(list), d.Temps, d.Others)
+	return nil
+}
